@@ -25,10 +25,18 @@ package name
 //@   nopanic
 //@   requires[depth] 0 <= depth && depth <= 1000000
 //@   loop 0 invariant[i] 0 <= i && i <= depth && len(parts) == depth && charsPerLevel >= 2 && charsPerLevel <= 17
-//@   modifies *
 
 //@ func generateSwampFolderName(swampName) (out)
 //@   property C20
 //@   nopanic
 //@   ensures[hexlen] 1 <= len(out) && len(out) <= 16
-//@   modifies *
+
+// On-disk location: both the hashed directory levels and the leaf folder are derived from the
+// full three-part path (never from a single part), with the caller's depth / fan-out.
+//@ func (*name).GetFullHashPath(n, rootPath, islandID, depth, maxFoldersPerLevel) (p)
+//@   property C20
+//@   requires[depth] 0 <= depth && depth <= 1000000
+//@   modifies n.HashPath
+//@   ensures[memo] len(old(n.HashPath)) > 0 ==> p == old(n.HashPath) && calls("generateSwampFolderName") == old(calls("generateSwampFolderName"))
+//@   ensures[levels_from_full_path] len(old(n.HashPath)) == 0 ==> calls("generateHashedDirectoryPath") == old(calls("generateHashedDirectoryPath")) + 1 && calledwith("generateHashedDirectoryPath", 0, old(n.Path)) && calledwith("generateHashedDirectoryPath", 1, depth) && calledwith("generateHashedDirectoryPath", 2, maxFoldersPerLevel)
+//@   ensures[leaf_from_full_path] len(old(n.HashPath)) == 0 ==> calls("generateSwampFolderName") == old(calls("generateSwampFolderName")) + 1 && calledwith("generateSwampFolderName", 0, old(n.Path))
